@@ -19,6 +19,20 @@ def check(run):
     seeds += [bytes(rng.getrandbits(8) for _ in range(rng.choice([1, 2, 31, 32, 33, 64, 100, 200]))) for _ in range(60 if quick else 600)]
     if not quick:
         seeds.append(bytes(rng.getrandbits(8) for _ in range(10000)))
+    # ---- the rarely taken branch of the sampler: `Fr::rand` is rejection sampling (a 254-bit candidate is refused with probability
+    #      0.244), so a seed whose ChaCha20 stream STARTS WITH k refused candidates has probability 0.244^k — no random seed reaches
+    #      k = 12 (4e-8). Such seeds are searched from the specification alone (`zkh find_rej`: Keccak-256, ChaCha20, four u64 per
+    #      candidate, top two bits cleared, compare with p; nothing of /repo is called): a committed corpus with 12..14 refusals
+    #      (seed C14f: the sampler gives up after 12 rounds) and fresh ones with >= 9 (thorough: >= 11) refusals on every run
+    from lib import rejseeds
+    deep = [sd.encode() for _, sd in rejseeds.CORPUS]
+    start = (int(run.seed) * 7919 + 13) * 1000003 % 10**9
+    rc, out = core.sh([zkh, "find_rej", "9" if quick else "11", "8" if quick else "12", str(start), str(start + (10**7 if quick else 4 * 10**8))], timeout=900)
+    fresh = [ln.split(" ")[1].encode() for ln in out.splitlines() if ln[:1].isdigit() and " " in ln]
+    if not fresh:
+        raise core.Abort("zkh find_rej returned no seed:\n" + out[-500:])
+    seeds += deep + fresh
+    run.rules.append(f"seeded generation on seeds whose stream starts with many refused candidates: corpus depths {sorted(d for d, _ in rejseeds.CORPUS)}, fresh this run: {len(fresh)}")
     seqs = []
     for sd in seeds:
         for op in ("keygen_seeded", "keygen_ext_seeded", "rln seeded_key_gen", "rln seeded_ext_key_gen", "ffi_seeded_key_gen", "ffi_seeded_ext_key_gen"):
